@@ -163,7 +163,7 @@ func runC16(r *Run) {
 		for _, br := range branchesIn(h) {
 			if loadOfField(br.Info.Root, "csrf.Config.SingleUseToken") {
 				if s, ok := br.truthSlot(true); ok {
-					_, hit := reach(pointOfEdge(edge{br.If.Block(), s}), isFinal, nil, func(in ssa.Instruction) bool {
+					_, hit := reachEdge(edge{br.If.Block(), s}, isFinal, nil, func(in ssa.Instruction) bool {
 						return isCallTo(in, nameHasSuffix("csrf.deleteTokenFromStorage"))
 					})
 					okSU = hit == nil
@@ -185,7 +185,7 @@ func runC16(r *Run) {
 				if e, ok := stripValue(br.Info.Root).(*ssa.Extract); ok && e.Tuple == c.Value() && e.Index == 1 {
 					if s, ok := br.nilSlot(false); ok {
 						n++
-						_, hit := reach(pointOfEdge(edge{br.If.Block(), s}), func(in ssa.Instruction) bool {
+						_, hit := reachEdge(edge{br.If.Block(), s}, func(in ssa.Instruction) bool {
 							ret, ok := in.(*ssa.Return)
 							return ok && !constIsNil(asConst(retOperand(ret, 0)))
 						}, nil, nil)
